@@ -24,6 +24,8 @@ pub struct FileStack {
 struct Library {
     dir: bool,
     path: PathBuf,
+    /// The file name given by the user (which may differ from the name of the canonical path).
+    name: Option<OsString>,
 }
 
 impl FileStack {
@@ -46,12 +48,13 @@ impl FileStack {
     fn add_libraries(&mut self, libs: &[PathBuf], reports: &mut ReportCollection) {
         for path in libs {
             if path.is_dir() {
-                self.libraries.push(Library { dir: true, path: path.clone() });
+                self.libraries.push(Library { dir: true, path: path.clone(), name: None });
             } else if let Some(extension) = path.extension() {
                 // Add Circom files to file stack.
                 if extension == "circom" {
+                    let name = path.file_name().map(OsString::from);
                     match fs::canonicalize(path) {
-                        Ok(path) => self.libraries.push(Library { dir: false, path: path.clone() }),
+                        Ok(path) => self.libraries.push(Library { dir: false, path, name }),
                         Err(_) => {
                             reports.push(
                                 FileOsError { path: path.display().to_string() }.into_report(),
@@ -129,11 +132,6 @@ impl FileStack {
         let pathos = OsString::from(include.path.clone());
         for lib in &self.libraries {
             if lib.dir {
-                // only match relative paths that do not start with .
-                if include.path.find('.') == Some(0) {
-                    continue;
-                }
-
                 let libpath = lib.path.join(&include.path);
                 debug!("searching for `{}` in `{}`", include.path, lib.path.display());
                 if let Some(path) = fs::canonicalize(&libpath).ok().filter(|path| !path.is_dir()) {
@@ -146,7 +144,7 @@ impl FileStack {
                 // ./lib.circom
                 if include.path.find(std::path::MAIN_SEPARATOR).is_none() {
                     debug!("checking if `{}` matches `{}`", include.path, lib.path.display());
-                    if lib.path.file_name().expect("good library file") == pathos {
+                    if lib.name.as_ref() == Some(&pathos) {
                         debug!("adding include `{}` from file", lib.path.display());
                         self.stack.push(lib.path.clone());
                         return Ok(());
